@@ -30,15 +30,6 @@ const (
 
 var certShapeNames = []string{"nil", "empty", "under-quorum", "forged", "wrong-round", "valid"}
 
-// tmpReplica boots a scratch replica (not registered in the world) on db.
-func tmpReplica(w *World, owner *Actor, db dbm.DB, name string) (*Replica, error) {
-	r := &Replica{W: w, Owner: owner, DB: db, Name: name, Observer: true}
-	if err := r.boot(); err != nil {
-		return nil, err
-	}
-	return r, nil
-}
-
 // shapeCert builds a certificate of the wanted shape for block b on builder's head state
 // (= the validator view at b's parent). Returns nil,false if the shape cannot be formed.
 func shapeCert(w *World, r *verifutil.Rng, builder *Replica, prev *types.Header, b *types.Block, shape certShape) (*types.BlockCert, bool) {
